@@ -17,6 +17,8 @@ def run_zones(ctx, prog, body, pre, pre_text, rule="R18", floor=None):
     body = eliminate_static_refs(prog, body)
     from .facts import thread_constant_flags
     body = thread_constant_flags(prog, body)
+    from .facts import lower_checked_arith
+    body = lower_checked_arith(prog, body)
     za = ZoneAnalysis(body, pre)
     obs = za.run()
     ordinal = {}
